@@ -5,6 +5,7 @@ import (
 	"fmt"
 	"math/rand"
 	"os"
+	"runtime"
 
 	g "github.com/cbehopkins/gkvlite"
 )
@@ -113,6 +114,13 @@ func (w *World) execVisit(op *Op) bool {
 				r := it.Result()
 				if r == nil {
 					w.failf("iter-nil-result", "iterator Next()==true but Result()==nil")
+				}
+				if w.rc != nil {
+					// the item stays handed out until the next Next(): give a producer that
+					// wrongly runs on the chance to release it before its count is looked at
+					for k := 0; k < 20; k++ {
+						runtime.Gosched()
+					}
 				}
 				if !visitor(r, 0) {
 					break
